@@ -11,6 +11,7 @@ import (
 	"strings"
 
 	"github.com/wrgl/wrgl/pkg/ref"
+	reffs "github.com/wrgl/wrgl/pkg/ref/fs"
 )
 
 // Event is one NDJSON line of a refs trace; every field is always present so
@@ -136,6 +137,18 @@ func Record(args []string) error {
 	pick := func(l []string) string { return l[rng.Intn(len(l))] }
 	for t := 0; t < *n; t++ {
 		var s ref.Store
+		if *fileBacked != "" && t%5 == 4 {
+			// the FILE ref store with LONG logs: tens of logged sets of one ref (a log of several KiB is read
+			// backwards in chunks), log reads in between, a rename carrying the log, another ref for contrast
+			d, err := os.MkdirTemp(*fileBacked, "refsfs")
+			if err != nil {
+				return err
+			}
+			if err := fsLongLog(reffs.NewStore(d), rng, emit); err != nil {
+				return err
+			}
+			continue
+		}
 		if *fileBacked != "" && t%2 == 1 {
 			d, err := os.MkdirTemp(*fileBacked, "refs")
 			if err != nil {
@@ -278,4 +291,60 @@ func reexecute(path string, emit func(*Event) error) error {
 		}
 	}
 	return sc.Err()
+}
+
+
+// fsLongLog records one trace on the file ref store within the operations it implements.
+func fsLongLog(s ref.Store, rng *rand.Rand, emit func(*Event) error) error {
+	emit(newEvent("reset"))
+	names := []string{"heads/a_b", "heads/aXb"}
+	cur := names[0]
+	n := 12 + rng.Intn(40)
+	for i := 0; i < n; i++ {
+		var o Op
+		switch k := rng.Intn(20); {
+		case k < 14:
+			o = Op{Name: "setlog", N: cur, V: 1 + rng.Intn(5)}
+		case k < 16:
+			o = Op{Name: "log", N: cur}
+		case k < 17:
+			o = Op{Name: "get", N: cur}
+		case k < 18:
+			o = Op{Name: "setlog", N: "remotes/o/x", V: 1 + rng.Intn(5)}
+		case k < 19:
+			o = Op{Name: "log", N: "remotes/o/x"}
+		default:
+			// move the ref (with its log) to the other name when that one is free
+			other := names[0]
+			if cur == names[0] {
+				other = names[1]
+			}
+			if _, err := s.Get(other); err == nil {
+				continue
+			}
+			if _, err := s.Get(cur); err != nil {
+				continue
+			}
+			o = Op{Name: "ren", N: cur, M: other}
+			if err := emit(fillEvent(o, Apply(s, o))); err != nil {
+				return err
+			}
+			cur = other
+			continue
+		}
+		if err := emit(fillEvent(o, Apply(s, o))); err != nil {
+			return err
+		}
+	}
+	for _, nm := range []string{cur, "remotes/o/x"} {
+		o := Op{Name: "log", N: nm}
+		if err := emit(fillEvent(o, Apply(s, o))); err != nil {
+			return err
+		}
+	}
+	oe, err := observeEvent(s)
+	if err != nil {
+		return err
+	}
+	return emit(oe)
 }
